@@ -4,6 +4,7 @@ import (
 	"context"
 	"errors"
 	"fmt"
+	"strings"
 	"time"
 
 	corev1 "k8s.io/api/core/v1"
@@ -74,8 +75,17 @@ type provider struct {
 }
 
 func (p *provider) Create(_ context.Context, nc *v1.NodeClaim) (*v1.NodeClaim, error) {
-	if p.s.inject("SProvCreate") != "" {
+	if k := p.s.inject("SProvCreate"); k != "" {
 		p.s.eff("EProvCreate false")
+		switch k {
+		case "KNotFound":
+			return nil, cloudprovider.NewInsufficientCapacityError(errors.New("injected: no capacity"))
+		case "KConflict":
+			return nil, cloudprovider.NewNodeClassNotReadyError(errors.New("injected: node class not ready"))
+		}
+		if p.s.w.Now%2 == 0 {
+			return nil, cloudprovider.NewCreateError(errors.New("injected create error"), "InjectedReason", strings.Repeat("long message ", 30))
+		}
 		return nil, errors.New("injected create error")
 	}
 	p.s.eff("EProvCreate true")
@@ -93,10 +103,7 @@ func (p *provider) Delete(_ context.Context, nc *v1.NodeClaim) error {
 		p.s.eff("EProvDelete PErr")
 		return errors.New("injected delete error")
 	}
-	if nc.Status.ProviderID != providerID {
-		panic("provider Delete for an unexpected provider id " + nc.Status.ProviderID)
-	}
-	if instAbsent(p.s.inst) {
+	if nc.Status.ProviderID != providerID || instAbsent(p.s.inst) {
 		p.s.eff("EProvDelete PNotFound")
 		return cloudprovider.NewNodeClaimNotFoundError(fmt.Errorf("instance %s not found", providerID))
 	}
@@ -407,7 +414,7 @@ func (s *sut) readBack() *world {
 				n.Taint = true
 			}
 		}
-		_, n.Lbl = obj.Labels[lbExclude]
+		n.Lbl = obj.Labels[lbExclude] == "karpenter"
 		nodes = append(nodes, n)
 	}
 	o.Nodes = nodes
